@@ -28,7 +28,7 @@ CLAIMS = {
     },
     "C01": {
         "level": "other",
-        "text": "Mechanism clauses that make reassembly independent of chunking, decided symbolically: single transport read site and window-field ownership; the receive-window invariant start + remaining = len(bytes) established on entry and re-established around the read loop (inductive check with a Vec length model and a ghost `consumed prefix` counter: parser gets bytes[start..], remaining := len(rest), drain removes exactly the consumed prefix, the transport reads into bytes[old_len..], len := end + n); short buffers (parser Incomplete/Error) lead to another read, only Failure is an error; framing constants of the two packet parsers as affine cursor offsets (u24 length @0, sequence @3, payload @4 of exactly that length / ffffff + 0xFFFFFF bytes) and in-order appends of fragments. Byte-for-byte equality through nom's combinators is not decided (trusted library). The reader goes (back) to the transport without a parse attempt only on a path that established remaining == 0 (entry/header → read and read → read paths); a verdict the framing parsers build themselves (fragment ids out of order) is a Failure, never Error/Incomplete, which the reader takes as `read more`.",
+        "text": "Mechanism clauses that make reassembly independent of chunking, decided symbolically: single transport read site and window-field ownership; the receive-window invariant start + remaining = len(bytes) established on entry and re-established around the read loop (inductive check with a Vec length model and a ghost `consumed prefix` counter: parser gets bytes[start..], remaining := len(rest), drain removes exactly the consumed prefix, the transport reads into bytes[old_len..], len := end + n); short buffers (parser Incomplete/Error) lead to another read, only Failure is an error; framing constants of the two packet parsers as affine cursor offsets (u24 length @0, sequence @3, payload @4 of exactly that length / ffffff + 0xFFFFFF bytes) and in-order appends of fragments. Byte-for-byte equality through nom's combinators is not decided (trusted library). The reader goes (back) to the transport without a parse attempt only on a path that established remaining == 0 (entry/header → read and read → read paths); a verdict the framing parsers build themselves (fragment ids out of order) is a Failure, never Error/Incomplete, which the reader takes as `read more`. The read buffer is resized to a length that exceeds the buffered length for every length (the transport is never handed an empty buffer).",
         "note": "Trusted: nom combinators return a suffix of their input; Read contract; Vec semantics.",
         "technique": "symbolic (affine) evaluation of buffer bookkeeping along enumerated loop paths with an inductive invariant check; cursor-offset analysis",
     },
@@ -64,13 +64,13 @@ CLAIMS = {
     },
     "C03": {
         "level": "other",
-        "text": "Structural clauses of the response discipline: (1) the writer API is linear by types — completing methods consume self, writers are neither Clone nor Copy, fields and constructors are private (signature/impl/ADT tables from the type-checked program; thorough tier: 10 compile_fail witnesses with compiling twins); (2) the pending terminator is flushed first with more_results=true in start/complete_one/error and with false in no_more_results/Drop, the status word carries bit 0x0008 exactly on the more_results path, consumed with take(); (3) Finalizer::Ok iff zero columns, Eof otherwise, none on finish_error; (4) Drop impls complete; (5) per enumerated loop-iteration path: no-reply commands write nothing, library-answered commands always write, default shim methods use their writer (found and fixed: default on_init sent no reply); (6) a row packet ends only on paths whose conditions imply col == columns.len(), binary cells only after columns.get(col). The packet grammar for arbitrary writer programs is NOT decided.",
+        "text": "Structural clauses of the response discipline: (1) the writer API is linear by types — completing methods consume self, writers are neither Clone nor Copy, fields and constructors are private (signature/impl/ADT tables from the type-checked program; thorough tier: 10 compile_fail witnesses with compiling twins); (2) the pending terminator is flushed first with more_results=true in start/complete_one/error and with false in no_more_results/Drop, the status word carries bit 0x0008 exactly on the more_results path, consumed with take(); (3) Finalizer::Ok iff zero columns, Eof otherwise, none on finish_error; (4) Drop impls complete; (5) per enumerated loop-iteration path: no-reply commands write nothing, library-answered commands always write, default shim methods use their writer (found and fixed: default on_init sent no reply); (6) a row packet ends only on paths whose conditions imply col == columns.len(), binary cells only after columns.get(col). The packet grammar for arbitrary writer programs is NOT decided. The OK and EOF packet layouts (position of the status word that carries the more-results bit) are checked on the symbolic byte stream; every store of a new pending terminator in a QueryResultWriter method is preceded by finalize on all paths; C04's framing clauses are evaluated here as well.",
         "note": "Trusted: rustc's move checking; protocol grammar of OK/EOF/ERR as encoded in spec/. Does not model arbitrary shim programs.",
         "technique": "type-level typestate (signature tables + compile_fail witnesses), path rules with branch-condition bounds, effect analysis per loop-iteration path",
     },
     "C14": {
         "level": "other",
-        "text": "OK-packet layout on every Ok path with both counts being the u64 parameters handed unmodified to the library lenenc writer; def-use of (rows, last_insert_id) from complete_one through the Finalizer aggregate into the OK writer's parameters in order; zero-column counter: +1 per end_row on every zero-column path, untouched by write_col, exactly one end_row per write_row, starts at 0, and completion reads the counter on a path on which nothing may have modified it (clobber-aware path-precise load) with last_insert_id 0.",
+        "text": "OK-packet layout on every Ok path with both counts being the u64 parameters handed unmodified to the library lenenc writer; def-use of (rows, last_insert_id) from complete_one through the Finalizer aggregate into the OK writer's parameters in order; zero-column counter: +1 per end_row on every zero-column path, untouched by write_col, exactly one end_row per write_row, starts at 0, and completion reads the counter on a path on which nothing may have modified it (clobber-aware path-precise load) with last_insert_id 0. The OK layout is compared on the symbolic byte stream; C04's framing clauses are evaluated here as well.",
         "note": "Trusted: mysql_common::write_lenenc_int size classes.",
         "technique": "emission-sequence analysis + path-precise def-use with memory clobber tracking (field-write summaries)",
     },
@@ -82,7 +82,7 @@ CLAIMS = {
     },
     "C09": {
         "level": "other",
-        "text": "Writer-side wire-layout analysis: emission sequences of the column-definition, resultset-header and PREPARE_OK writers on every Ok path vs the protocol layouts — slot kinds/widths, constants, which Column field feeds which slot, 0x0c fixed-field length vs bytes actually emitted, one packet per definition, count = lenenc(iter.len()) of the same iterator through the library lenenc writer without narrowing, PREPARE_OK field order and single u16 casts, EOF policy. Independent of name content/length and of counts (up to the u16 bound).",
+        "text": "Writer-side wire-layout analysis: emission sequences of the column-definition, resultset-header and PREPARE_OK writers on every Ok path vs the protocol layouts — slot kinds/widths, constants, which Column field feeds which slot, 0x0c fixed-field length vs bytes actually emitted, one packet per definition, count = lenenc(iter.len()) of the same iterator through the library lenenc writer without narrowing, PREPARE_OK field order and single u16 casts, EOF policy. Independent of name content/length and of counts (up to the u16 bound). C04's framing clauses (one transport write site, whole pending packet, in order) are evaluated here as well.",
         "note": "Trusted: mysql_common lenenc writers; byteorder. Counts > 65535 out of the property's range.",
         "technique": "emission-sequence (wire layout) extraction over enumerated Ok-paths with origin terms per slot",
     },
@@ -112,13 +112,13 @@ CLAIMS = {
     },
     "C17": {
         "level": "other",
-        "text": "Append-only (entry(param).or_insert_with.extend on the looked-up statement's long_data with this command's data), cleared on the same entry after on_execute on every completed path, long-data parameters bypass the inline parser with the NULL test first, storage owned by the per-statement entry only. Structural necessary conditions on every path; ordering of bytes inside Vec::extend is std's.",
+        "text": "Append-only (entry(param).or_insert_with.extend on the looked-up statement's long_data with this command's data), cleared on the same entry after on_execute on every completed path, long-data parameters bypass the inline parser with the NULL test first, storage owned by the per-statement entry only. Structural necessary conditions on every path; ordering of bytes inside Vec::extend is std's. The per-statement entry's life cycle (C10's registry rules: created fresh by the PREPARE reply only, removed by CLOSE only) is evaluated here as well.",
         "note": "Trusted: std Vec/HashMap semantics; reassembly of multi-packet chunks (C01).",
         "technique": "path-precise def-use over enumerated CFG paths, ownership table from the ADT export",
     },
     "C13": {
         "level": "other",
-        "text": "Static table + dataflow check: the 886 ErrorKind discriminants are compared with the MIR switch tables of From<u16> and sqlstate() (bijection, totality, 5-byte states), the ERR writer's emission sequence is compared slot by slot with the protocol layout including the source of each slot, and the four public error entry points are followed by def-use to the ERR writer. Complete for the finite table clause; decides forwarding for all messages because the message is passed through untouched.",
+        "text": "Static table + dataflow check: the 886 ErrorKind discriminants are compared with the MIR switch tables of From<u16> and sqlstate() (bijection, totality, 5-byte states), the ERR writer's emission sequence is compared slot by slot with the protocol layout including the source of each slot, and the four public error entry points are followed by def-use to the ERR writer. Complete for the finite table clause; decides forwarding for all messages because the message is passed through untouched. The code→kind and kind→SQLSTATE tables are read off by path enumeration (match arms, or-patterns, wildcard arms, if-chains, helpers), the ERR layout is compared on the symbolic byte stream, and C04's framing clauses are evaluated here as well.",
         "note": "Trusted: rustc's MIR for match/enum casts, the msqlx exporter, byteorder/std write semantics. Client-side decoding is not analysed.",
         "technique": "MIR switch-table extraction, emission-sequence (wire layout) analysis, def-use of call arguments",
     },
